@@ -348,6 +348,13 @@ class SyncInterpreter(BaseInterpreter[TContext, TEvent]):
         limit = getattr(self.machine, "max_iterations", 1000)
         try:
             while self._event_queue:
+                # 🏁 A machine that completed, failed or was stopped while an
+                #    earlier event was being handled ignores what is still
+                #    queued, exactly as `send()` does (and as the async run
+                #    loop does by leaving its `while status == "running"`).
+                if self.status != "running":
+                    self._event_queue.clear()
+                    break
                 processed += 1
                 if processed > limit:
                     logger.error(
